@@ -186,16 +186,43 @@ pub fn execute(case: &Case) -> Outcome {
         step(&mut c, at, "set of exactly --item-size-limit", &|r| r.status == status::OK, &mut viols, &mut fp);
         // ---- (3) one TTL probe on the real 1 Hz clock
         if ttl_probe {
+            // the real 1 Hz clock: an item with ttl 2 lives between 1 and 2 real seconds.
+            // Expected hit: only asserted when less than 0.8 s of real time have passed;
+            // expected miss: polled with a long deadline (a starved timer thread can delay
+            // it, never make it fail)
             let mut s = Request::store(op::SET, b"ttl", b"v", 0, 2, 0);
             s.opaque = 7;
+            let t_set = Instant::now();
             step(&mut c, s, "set ttl=2", &|r| r.status == status::OK, &mut viols, &mut fp);
             let mut g = Request::get(op::GET, b"ttl");
             g.opaque = 8;
-            step(&mut c, g, "get right after set ttl=2", &|r| r.status == status::OK, &mut viols, &mut fp);
-            std::thread::sleep(Duration::from_millis(4200));
-            let mut g = Request::get(op::GET, b"ttl");
-            g.opaque = 9;
-            step(&mut c, g, "get 4.2 s after set ttl=2", &|r| r.status == status::NOT_FOUND, &mut viols, &mut fp);
+            c.send(&g);
+            if let Some(r) = c.recv(LONG) {
+                if t_set.elapsed() < Duration::from_millis(800) && r.status != status::OK {
+                    viols.push(Violation::new("C20", "expiry-does-not-follow-real-seconds", format!("{} {} thread(s): an item with ttl 2 was gone {:?} after it was stored", runtime, threads, t_set.elapsed())));
+                }
+            }
+            std::thread::sleep(Duration::from_millis(2200));
+            let t_poll = Instant::now();
+            let mut gone = false;
+            let mut k = 0u32;
+            while t_poll.elapsed() < LONG {
+                let mut g = Request::get(op::GET, b"ttl");
+                g.opaque = 9 + k;
+                k += 1;
+                c.send(&g);
+                match c.recv(LONG) {
+                    Some(r) if r.status == status::NOT_FOUND => {
+                        gone = true;
+                        break;
+                    }
+                    _ => std::thread::sleep(Duration::from_millis(100)),
+                }
+            }
+            if !gone {
+                viols.push(Violation::new("C20", "expiry-does-not-follow-real-seconds", format!("{} {} thread(s): an item with ttl 2 is still returned {:?} after it was stored (is the 1 Hz clock driven in this configuration?)", runtime, threads, t_set.elapsed())));
+            }
+            fp.u8(gone as u8);
             out.count("ttl_probes_on_real_clock", 1);
         }
         c.close();
